@@ -278,9 +278,12 @@ def check(ctx):
                 detail = f"sqrt({short(num, 80)} / {short(den, 80)})"
 
                 def trace_pairs(x):
-                    # phi(mm_diag ? sum : trace)(arg)
+                    # phi(mm_diag ? sum : trace)(arg)  ==  phi(mm_diag ? sum(arg) : trace(arg))
                     if x[0] == "call" and x[1][0] == "phi":
                         return x[1], x[2][0]
+                    if x[0] == "phi" and x[2][0] == "call" and x[3][0] == "call" \
+                            and x[2][2][:1] == x[3][2][:1] and len(x[2][2]) == 1:
+                        return ("phi", x[1], x[2][1], x[3][1]), x[2][2][0]
                     return None, None
                 fn_n, arg_n = trace_pairs(num)
                 fn_d, arg_d = trace_pairs(den)
@@ -312,8 +315,9 @@ def check(ctx):
         tf = [t for t, _, cond in res.calls if t[0] == "call"
               and t[1] == ("a", n("self"), "_tune_fast")]
         ctx.ob("C12.R2", ts, "_tune_slow ends with the fast tuning step on the same "
-                             "arguments", len(tf) == 1 and tf[0][2][:4] == (
-                                 n("prng_key"), ks, n("model_state"), n("epoch")),
+                             "arguments", len(tf) >= 1 and all(t_[2][:4] == (
+                                 n("prng_key"), ks, n("model_state"), n("epoch")) for t_ in tf)
+               and len({cd for t_, _, cd in res.calls if t_ in tf}) == len(tf),
                detail=short(tf[0], 120) if tf else "", stmt="tune_fast hand-over")
         ctx.ob("C12.R2", ts, "step size is rescaled by sqrt(tr(old)/tr(new)) with sum for "
                              "the diagonal and trace for the dense matrix, selected by the "
@@ -325,20 +329,23 @@ def check(ctx):
                       inline_depth=2)
         rt = ri.ret()
         imm = None
-        if rt is not None and rt[0] == "call":
-            imm = kw(rt, "inverse_mass_matrix", 1)
+        from .common import leaf_under, map_leaves
+        if rt is not None:
+            # (the state may be built in one place or in the arms of an early return)
+            imm = map_leaves(rt, lambda x: kw(x, "inverse_mass_matrix", 1)
+                             if x and x[0] == "call" else None)
         ok_init = False
-        if imm is not None and imm[0] == "phi":
-            default = imm[2]
-            user = imm[3]
-            arms = [default[2], default[3]] if default[0] == "phi" else [default]
-            ok_init = all(order_of(a) == CANON for a in arms) and user == (
-                "a", n("self"), "initial_inverse_mass_matrix")
+        if imm is not None:
+            user_t = ("a", n("self"), "initial_inverse_mass_matrix")
+            a_none, a_diag = ("cmp", "is", user_t, c(None)), ("a", n("self"), "mm_diag")
+            given = {leaf_under(imm, {a_none: False, a_diag: d_}) for d_ in (False, True)}
+            vec = leaf_under(imm, {a_none: True, a_diag: True})
+            mat = leaf_under(imm, {a_none: True, a_diag: False})
             # the vector goes with the diagonal mode, the square matrix with the dense one
-            ok_init = ok_init and default[0] == "phi" and default[1] == (
-                "a", n("self"), "mm_diag") and is_call(default[2], "jax.numpy.ones_like",
-                                                       "jax.numpy.ones") \
-                and is_call(default[3], "jax.numpy.eye", "jax.numpy.identity")
+            ok_init = (given == {user_t} and vec is not None and mat is not None
+                       and order_of(vec) == CANON and order_of(mat) == CANON
+                       and is_call(vec, "jax.numpy.ones_like", "jax.numpy.ones")
+                       and is_call(mat, "jax.numpy.eye", "jax.numpy.identity"))
         ctx.ob("C12.R1", ist, "the initial inverse mass matrix is the identity shaped like "
                               "ravel_pytree(position) unless supplied by the user", ok_init,
                detail=short(imm or ()), stmt="initial inverse mass matrix")
